@@ -1,5 +1,8 @@
 """C18 — allocation failure is reported, leak-free and crash-free; destroy releases all."""
 import os
+import sys
+
+sys.path.insert(0, os.path.dirname(os.path.abspath(__file__)))
 
 import vcommon as V
 
@@ -11,7 +14,8 @@ C_DRIVER = "harness/drivers/c18_driver.c"
 EXTRA_C = ["harness/faultinj/faultinj.c"]
 REPO_SOURCES = V.all_repo_sources()          # the whole library, compiled from the working tree
 WRAPPED = ["malloc", "calloc", "realloc", "aligned_alloc", "posix_memalign", "free",
-           "eventfd", "epoll_create", "epoll_create1", "pipe", "pipe2", "socket", "accept", "accept4", "close"]
+           "eventfd", "epoll_create", "epoll_create1", "pipe", "pipe2", "socket", "accept", "accept4", "close",
+           "fopen", "fclose", "fwrite", "fflush"]
 LINK_FLAGS = ["-Wl,--wrap=" + w for w in WRAPPED]
 HEADER_LINES = 3
 SHRINK = False                                # a case is (instance, fault set): nothing to delete
@@ -88,6 +92,12 @@ INSTANCES = [
     ("socket_evloop_on_read_accept", 59, 2, False, True, True),
     ("socket_evloop_on_wake", 60, 1, False, False, True),
     ("channel_init_rmutex", 61, 3, True, True, True),
+    # log handlers owning a FILE* (fopen/fclose interposed; fwrite/fflush/fclose on a closed handle stops the run).
+    # write_rotate: a failed re-open during rotation is not reported by write() and leaves the file closed
+    # (fewer handles live than before the call): reports = False, strict = False
+    ("log_file_handler_init", 77, 1, True, True, True),
+    ("log_file_rotate_handler_init", 78, 1, True, True, True),
+    ("log_file_rotate_handler_write_rotate", 79, 2, False, False, True),
 ]
 # boundary contents on the success path: (name, id, calls, number of caller-owned values stored in the container).
 # destroy runs with a counted free callback; a reported failure is retried without faults before destroy.
@@ -108,7 +118,7 @@ CTORS = ["channel_init_mutex", "channel_init_nolock", "channel_init_default", "c
          "ts_memory_pool_init", "ring_memory_pool_init", "pointer_slot_init", "bytes_buffer_init", "flow_ctl_init",
          "array_list_init", "avl_tree_init_pool", "hash_table_init_pool", "heap_init", "linked_list_init_pool",
          "queue_init_pool", "stack_init", "trie_init_pool", "ev_signal_init", "socket_evloop_handle_init",
-         "socket_evloop_pipe_init", "async_logger_init"]
+         "socket_evloop_pipe_init", "async_logger_init", "log_file_handler_init", "log_file_rotate_handler_init"]
 # cleanup blocks / failure handlers ("labels", numbered in coq/C18/Instances.v by H n) -> where they are in the C code
 LABEL_NAMES = {
     11: "memory_pool_init: data_bufs NULL", 12: "memory_pool_init: ptr_buf NULL", 13: "memory_pool_init: data_bufs[0] NULL",
@@ -135,6 +145,8 @@ LABEL_NAMES = {
     73: "socket_evloop_handle_init: mtx NULL", 74: "async_logger_init: channel_init failed", 75: "async_logger_log: msg NULL",
     76: "async_logger_log: payload NULL", 77: "socket_evloop_pipe_init: pipe failed", 78: "on_read accept: cb_alloc NULL",
     79: "on_read accept: evloop_add_ctx failed", 80: "on_wake: evloop_add_ctx failed (context released)",
+    81: "rotate: re-open (fopen) failed", 82: "rotate handler write: rotate failed (ignored)",
+    83: "log_file_handler_init: fopen failed", 84: "log_file_rotate_handler_init: fopen failed",
     157: "evloop_init: linked_list_init(0) failed (dead)", 168: "evloop_new: select init failed (dead)",
 }
 
@@ -152,8 +164,13 @@ TRUSTED_BASE = [
     "eventfd/epoll_create/epoll_create1/pipe/pipe2/socket/close in the objects compiled from the repository; allocations made "
     "inside libc (pthread_create, stdio) are not interposed and not in the property's fault class",
     "live accounting = blocks and descriptors obtained through the interposed calls since the scenario began and not yet released",
-    "the transcription of each C function into the resource-protocol language is hand-written; it is tied to the code by the "
-    "differential run (return class, calls attempted, live counts before/after the call and after destroy, for every k)",
+    "two ties between the C text and the protocol programs: (1) a TRANSLATOR (lib/props/c18_trans.py, clang JSON AST -> protocol "
+    "term, regenerated into coq/gen/Params_C18.v on every run) for 32 init / grow / destroy scenarios - the generated programs "
+    "themselves are proved to satisfy the property (wf_scn by vm_compute + the generic soundness theorem) and to behave like the "
+    "hand-written instances; trusted there: the translator's classification of statements (acquire / release / NULL store / test / "
+    "call / return class; calls without acquisition assumed to succeed; callees that walk an empty container and undecided scalar "
+    "conditions listed per scenario in the generated file); (2) the hand-written transcription of every instance, tied to the code "
+    "by the differential run (return class, calls attempted, live counts before/after the call and after destroy, for every k)",
     "modelled, not verified: pthread mutex/condvar initialisation and thread creation never fail (not allocation / fd-creating calls)",
 ]
 ASSUMPTIONS = [
@@ -190,6 +207,20 @@ EVIDENCE_NOTES = [
     "files is muggle_ma_ring_thread_ctx_init/cleanup (covered)",
     "array_blocking_queue_init / double_buffer_init / ring_buffer_init leak or half-initialise only when pthread mutex/condvar "
     "initialisation fails; that is outside the property's fault class (allocation or fd-creating call) and is not injected",
+    "GENERATED from the C text by the translator (scenario = instance id): muggle_channel_init/destroy (4 flag sets: ids 0, 1, 47, 61), "
+    "muggle_ring_buffer_init/destroy (2), muggle_double_buffer_init/destroy (4, loop unrolled), muggle_array_blocking_queue_init/"
+    "destroy (5), muggle_memory_pool_init/destroy (6), sowr / ts / ring pool, pointer_slot, bytes_buffer, flow_ctl init/destroy (9-14), "
+    "array_list / heap / stack init + ensure_capacity + destroy (15, 16, 23, 24, 30, 31), avl / hash_table / linked_list / queue / trie "
+    "init with node pool + destroy, with muggle_memory_pool_init/destroy translated in place (18, 21, 26, 28, 33), muggle_ev_signal_init/"
+    "destroy (37), muggle_socket_evloop_handle_init/destroy (43), muggle_log_file_handler / _rotate_handler init/destroy (77, 78), "
+    "muggle_evloop_init_epoll/destroy_epoll (201), _poll (202), static muggle_evloop_init/destroy (203).  HAND-WRITTEN only: "
+    "muggle_memory_pool_ensure_space / alloc (array element with a variable index), muggle_evloop_new/delete (back-end through a "
+    "function-pointer table), ma_ring thread context (thread-local static, waits for the back-end thread), async logger (thread), "
+    "socket_evloop_pipe (pipe yields two descriptors), all insert / put / push / enqueue / add_ctx operations, callbacks on_read / "
+    "on_wake, rotate-handler write, boundary-content instances.  An unsupported construct in a function of the generated set makes "
+    "gen_errors non-empty = broken obligation generated_programs_complete",
+    "FILE* handles are a third resource class: fopen counts as an acquisition call and can be failed, fclose releases; fwrite / "
+    "fflush / fclose on a handle that was already closed (use after close, double close) stops the run and is a violation",
     "boundary-content instances (ids 62-76): containers pre-built with caller-owned heap values and contents that reach code the "
     "plain instances never touch - the EMPTY trie key (root.children[0]) with and without node pool, a single element, insertion at "
     "index 0 / at the head, a rejected duplicate (avl, hash table), node pool / array exactly full at destroy, growth with stored "
@@ -201,6 +232,58 @@ EVIDENCE_NOTES = [
     "async_logger_init: destroy is NOT called after a reported failure (its destroy joins a thread that was never created); "
     "async_logger_log is void by design, so only no-crash / no-leak / destroy-releases-all are required of it",
 ]
+
+
+
+# ---------------------------------------------------------------------------------------------------------------
+# TRANSLATOR tie: for these scenarios (id = the instance it doubles; ids >= 200 have no hand-written instance) the
+# resource-protocol program is regenerated from the C text (clang JSON AST) on every run into coq/gen/Params_C18.v;
+# coq/C18/ProofsGen.v then proves (vm_compute) that every generated scenario is accepted by wf_scn - hence, by the
+# generic theorems, satisfies the property under every fault function - and behaves like the hand-written instance
+# that the differential run compares with the implementation.  `neutral`: callees that walk the (empty) container;
+# `hints`: scalar conditions the argument values do not decide.
+GEN_SPECS = {
+ 6: dict(op=("memory/memory_pool.c","muggle_memory_pool_init",{"init_capacity":4,"block_size":16}), destroy=("memory/memory_pool.c","muggle_memory_pool_destroy",{})),
+ 15: dict(op=("dsaa/array_list.c","muggle_array_list_init",{"capacity":4}), destroy=("dsaa/array_list.c","muggle_array_list_destroy",{}), neutral=["muggle_array_list_clear"]),
+ 16: dict(pre=[("dsaa/array_list.c","muggle_array_list_init",{"capacity":4})], op=("dsaa/array_list.c","muggle_array_list_ensure_capacity",{"capacity":16}), destroy=("dsaa/array_list.c","muggle_array_list_destroy",{}), neutral=["muggle_array_list_clear"], hints={"p_array_list->capacity >= capacity": False}),
+ 23: dict(op=("dsaa/heap.c","muggle_heap_init",{"capacity":4}), destroy=("dsaa/heap.c","muggle_heap_destroy",{}), neutral=["muggle_heap_clear"]),
+ 24: dict(pre=[("dsaa/heap.c","muggle_heap_init",{"capacity":4})], op=("dsaa/heap.c","muggle_heap_ensure_capacity",{"capacity":16}), destroy=("dsaa/heap.c","muggle_heap_destroy",{}), neutral=["muggle_heap_clear"], hints={"p_heap->capacity >= capacity": False}),
+ 30: dict(op=("dsaa/stack.c","muggle_stack_init",{"capacity":4}), destroy=("dsaa/stack.c","muggle_stack_destroy",{}), neutral=["muggle_stack_clear"]),
+ 31: dict(pre=[("dsaa/stack.c","muggle_stack_init",{"capacity":4})], op=("dsaa/stack.c","muggle_stack_ensure_capacity",{"capacity":16}), destroy=("dsaa/stack.c","muggle_stack_destroy",{}), neutral=["muggle_stack_clear"], hints={"p_stack->capacity >= capacity": False}),
+ 18: dict(op=("dsaa/avl_tree.c","muggle_avl_tree_init",{"capacity":8}), destroy=("dsaa/avl_tree.c","muggle_avl_tree_destroy",{}), neutral=["muggle_avl_tree_clear"]),
+ 21: dict(op=("dsaa/hash_table.c","muggle_hash_table_init",{"capacity":8,"table_size":16}), destroy=("dsaa/hash_table.c","muggle_hash_table_destroy",{}), neutral=["muggle_hash_table_clear"]),
+ 26: dict(op=("dsaa/linked_list.c","muggle_linked_list_init",{"capacity":8}), destroy=("dsaa/linked_list.c","muggle_linked_list_destroy",{}), neutral=["muggle_linked_list_clear"]),
+ 28: dict(op=("dsaa/queue.c","muggle_queue_init",{"capacity":8}), destroy=("dsaa/queue.c","muggle_queue_destroy",{}), neutral=["muggle_queue_clear"]),
+ 33: dict(op=("dsaa/trie.c","muggle_trie_init",{"capacity":8}), destroy=("dsaa/trie.c","muggle_trie_destroy",{}), neutral=["muggle_trie_erase_node"]),
+ 0: dict(op=("sync/channel.c","muggle_channel_init",{"capacity":8,"flags":16}), destroy=("sync/channel.c","muggle_channel_destroy",{})),
+ 1: dict(op=("sync/channel.c","muggle_channel_init",{"capacity":8,"flags":35}), destroy=("sync/channel.c","muggle_channel_destroy",{})),
+ 47: dict(op=("sync/channel.c","muggle_channel_init",{"capacity":8,"flags":0}), destroy=("sync/channel.c","muggle_channel_destroy",{})),
+ 61: dict(op=("sync/channel.c","muggle_channel_init",{"capacity":8,"flags":18}), destroy=("sync/channel.c","muggle_channel_destroy",{})),
+ 2: dict(op=("sync/ring_buffer.c","muggle_ring_buffer_init",{"capacity":8,"flag":0}), destroy=("sync/ring_buffer.c","muggle_ring_buffer_destroy",{})),
+ 4: dict(op=("sync/double_buffer.c","muggle_double_buffer_init",{"capacity":8,"non_blocking":0}), destroy=("sync/double_buffer.c","muggle_double_buffer_destroy",{})),
+ 5: dict(op=("sync/array_blocking_queue.c","muggle_array_blocking_queue_init",{"capacity":8}), destroy=("sync/array_blocking_queue.c","muggle_array_blocking_queue_destroy",{})),
+ 9: dict(op=("memory/sowr_memory_pool.c","muggle_sowr_memory_pool_init",{"capacity":8,"data_size":16}), destroy=("memory/sowr_memory_pool.c","muggle_sowr_memory_pool_destroy",{})),
+ 10: dict(op=("memory/threadsafe_memory_pool.c","muggle_ts_memory_pool_init",{"capacity":8,"data_size":16}), destroy=("memory/threadsafe_memory_pool.c","muggle_ts_memory_pool_destroy",{})),
+ 11: dict(op=("memory/ring_memory_pool.c","muggle_ring_memory_pool_init",{"capacity":8,"data_size":16}), destroy=("memory/ring_memory_pool.c","muggle_ring_memory_pool_destroy",{})),
+ 12: dict(op=("memory/pointer_slot.c","muggle_pointer_slot_init",{"capacity":8}), destroy=("memory/pointer_slot.c","muggle_pointer_slot_destroy",{})),
+ 13: dict(op=("memory/bytes_buffer.c","muggle_bytes_buffer_init",{"capacity":64}), destroy=("memory/bytes_buffer.c","muggle_bytes_buffer_destroy",{})),
+ 14: dict(op=("time/flow_controller.c","muggle_flow_ctl_init",{"time_range_sec":1,"n":4,"init_forward_sec":0}), destroy=("time/flow_controller.c","muggle_flow_ctl_destroy",{})),
+ 37: dict(op=("event/event_signal.c","muggle_ev_signal_init",{}), destroy=("event/event_signal.c","muggle_ev_signal_destroy",{})),
+ 43: dict(op=("net/socket_evloop_handle.c","muggle_socket_evloop_handle_init",{}), destroy=("net/socket_evloop_handle.c","muggle_socket_evloop_handle_destroy",{}), neutral=["muggle_queue_clear"]),
+ 77: dict(op=("log/log_file_handler.c","muggle_log_file_handler_init",{}), destroy=("log/log_file_handler.c","muggle_log_file_handler_destroy",{})),
+ 78: dict(op=("log/log_file_rotate_handler.c","muggle_log_file_rotate_handler_init",{"max_bytes":64,"backup_count":2}), destroy=("log/log_file_rotate_handler.c","muggle_log_file_rotate_handler_destroy",{}), hints={"handler->offset >= handler->max_bytes": False}),
+ 201: dict(op=("event/internal/event_loop_epoll.c","muggle_evloop_init_epoll",{}), destroy=("event/internal/event_loop_epoll.c","muggle_evloop_destroy_epoll",{})),
+ 202: dict(op=("event/internal/event_loop_poll.c","muggle_evloop_init_poll",{}), destroy=("event/internal/event_loop_poll.c","muggle_evloop_destroy_poll",{})),
+ 203: dict(op=("event/event_loop.c","muggle_evloop_init",{}), destroy=("event/event_loop.c","muggle_evloop_destroy",{}), neutral=["muggle_linked_list_clear"], hints={"args->use_mem_pool": False}),
+}
+
+
+def gen_params(ctx):
+    import c18_trans as T
+    V.gen_config_header()
+    cflags = ["-std=gnu11", "-DNDEBUG", "-D" + V.GUARD, "-DMUGGLE_C_EXPORTS", "-I" + V.REPO, "-I" + V.GEN_INC]
+    loader = T.AstLoader(V.REPO, cflags, os.path.join(V.BUILD, "C18", "astcache"), V.headers_hash())
+    return T.params_file(loader, GEN_SPECS, V.REPO)
 
 
 def _mk(name, ks, tag, fill=None):
@@ -427,7 +510,7 @@ MANIFEST = {
                    "tracked pointer variables): the outcome of a run depends only on the fault positions it consulted, so the finite "
                    "decision tree explored by the checker wf_scn covers every fault function; a scenario accepted by wf_scn reports "
                    "failure, leaks nothing, does not crash/hang/double-free and is safe to destroy under EVERY fault set, and behaves "
-                   "under any fault set as under its first hit.  77 instances transcribe the anchored constructors / growers / "
+                   "under any fault set as under its first hit.  80 instances transcribe the anchored constructors / growers / "
                    "inserters / destroys literally (wf_scn = true by vm_compute for the repaired code; the 17 transcriptions of the "
                    "unchanged defective code are refuted with a witness k).  Tied to the C code on every run by complete single-fault "
                    "enumeration + seeded multi-fault sets on the library compiled from the working tree with the allocator and "
@@ -437,6 +520,6 @@ MANIFEST = {
     "level_note": ("Trusted: Coq kernel, extraction, the hand transcription of each function (checked by the differential run for every "
                    "fault position), the --wrap fault injector and accounting; caller storage is zero-initialised; mutex/condvar/"
                    "thread creation are not failed.  Known finding: void muggle_socket_evloop_add_ctx cannot report a failed enqueue."),
-    "technique": "Coq: locality of the interpreter + complete decision-tree exploration lifted to all fault functions; "
+    "technique": "translator C (clang AST) -> protocol program, checked by wf_scn + soundness theorem on every run; Coq: locality of the interpreter + complete decision-tree exploration lifted to all fault functions; "
                  "fault-injection differential run (complete k enumeration) + monitor",
 }
